@@ -165,6 +165,12 @@ class Schema:
 FIELD_NAMES = ["a", "b", "c", "d", "e", "f", "g", "h", "k", "x", "y", "z", "val", "item", "str", "tl_name", "json", "w", "r", "err", "size", "flags", "data", "cnt", "key2"]
 
 
+def is_empty_struct_ref(t):
+    while t.kind == "ref" and t.decl.kind == "typedef":
+        t = t.decl.inner
+    return t.kind == "ref" and t.decl.kind == "struct" and not t.decl.constructors[0].fields
+
+
 class Gen:
     def __init__(self, seed, label="schema", max_types=12, allow_recursion=True, profile="full", anon_pairs=True, rec_containers=False):
         self.anon_pairs = anon_pairs
@@ -287,7 +293,10 @@ class Gen:
             if self_decl is not None and mask and self.allow_recursion and r.chance(3, 10):
                 out.append(Field(nm, T("ref", decl=self_decl, bare=True, pct=False, args=[]), mask))
                 continue
-            out.append(Field(nm, self.type_ref(0, sizes, masks), mask))
+            t = self.type_ref(0, sizes, masks)
+            while mask and is_empty_struct_ref(t):  # an empty struct under a field mask does not compile (finding F19): kept out of ordinary schemas
+                t = self.type_ref(0, sizes, masks)
+            out.append(Field(nm, t, mask))
         return out
 
     def generate(self):
